@@ -135,6 +135,40 @@ static ByteBuffer ext_getbuffer(Source *src) { (void)src; return ext_bb; }
 void adapter_exec(Ev *ev)
 {
     if (ev_is(ev, "@")) return;
+    if (ev_is(ev, "chsrc")) {
+        int nc = (int)ev->a[0];
+        ByteBuffer *cs = calloc((size_t)(nc ? nc : 1), sizeof *cs);
+        unsigned char **blks = calloc((size_t)(nc ? nc : 1), sizeof *blks);
+        for (int i = 0; i < nc; i++) {
+            size_t size = (size_t)ev->a[1 + 3 * i], used = (size_t)ev->a[2 + 3 * i], off = (size_t)ev->a[3 + 3 * i];
+            blks[i] = xblock(size);
+            for (size_t p = 0; p < size; p++) blks[i][p] = (unsigned char)((40 * i + (int)p + 1) % 256);
+            cs[i].data = blks[i]; cs[i].size = size; cs[i].used = used; cs[i].offset = off;
+        }
+        ByteChunks bc = { (size_t)nc, (size_t)ev->a[1 + 3 * nc], cs };
+        long n = (long)ev->a[2 + 3 * nc];
+        Source src; SnkD k2; Sink snk;
+        memset(&k2, 0, sizeof k2);
+        source_from_chunks(&src, &bc);
+        chunk_sink_init(&snk, snk_chunk, &k2);
+        unsigned char *out = xblock((size_t)n);
+        unsigned char auxm[3];
+        ByteBuffer ab = BYTE_BUFFER_INIT(auxm, sizeof auxm, sizeof auxm, 0);
+        budget = 0; rep_s = rep_k = 0;
+        volatile long long rc = -9999;
+        if (setjmp(bail) == 0) {
+            rc = source_get_chunk(&src, out, (size_t)n);
+            (void)sts_drain_aux(&src, &snk, &ab);
+        }
+        obs(ev, rc);
+        if (rc >= 0) for (long i = 0; i < n; i++) obs(ev, out[i]);
+        obs(ev, -7);
+        for (long i = 0; i < k2.n; i++) obs(ev, k2.got[i]);
+        xfree(out);
+        for (int i = 0; i < nc; i++) xfree(blks[i]);
+        free(cs); free(blks);
+        return;
+    }
     if (ev_is(ev, "putbig") || ev_is(ev, "getbig")) {
         BigD d; memset(&d, 0, sizeof d);
         uint64_t n = get_w64(ev->a);
